@@ -113,6 +113,35 @@ def run(ctx):
                                     ctx.count("collections_with_max_dist")
                     check_block(ctx, np, dtw, dtw_ndim, dtw_cc, cont, nd, ss, kw, block, table)
 
+    # scale-up slice: collections of more than 8 / 16 / 32 / 64 series with random blocks
+    for rep in range(ctx.scale(10, 100)):
+        idx += 1
+        if not ctx.mine(idx):
+            continue
+        crng = __import__("random").Random(77000 + rep + ctx.seed)
+        n = crng.choice([9, 16, 17, 33, 64, 65, crng.randint(18, 70)])
+        cont = crng.choice(["list_np", "matrix", "ndim_matrix", "ndim_list"])
+        nd = 2 if cont.startswith("ndim") else 0
+        equal = cont in ("matrix", "ndim_matrix") or crng.random() < 0.5
+        n0 = crng.randint(1, 4)
+        lens = [n0 if equal else crng.randint(1, 4) for _ in range(n)]
+        ss = [gen.series_nd(crng, m, nd, "dyadic") if nd else gen.series(crng, m, "dyadic") for m in lens]
+        kw = {}
+        if crng.random() < 0.5:
+            kw["window"] = crng.randint(1, 3)
+        kwp = dict(kw, use_ndim=True) if nd else dict(kw)
+        with monitors.quiet():
+            arrs = [np.array(s) for s in ss]
+            table = [[float(pyd(arrs[a], arrs[b], **kwp)) if b > a else 0.0 for b in range(n)] for a in range(n)]
+            for a_ in range(n):
+                for b_ in range(a_):
+                    table[a_][b_] = table[b_][a_]
+        ctx.count("large_collections")
+        for _b in range(4):
+            rb = crng.randrange(n); re_ = crng.randint(rb + 1, n); cb = crng.randrange(n); ce = crng.randint(cb + 1, n)
+            block = crng.choice([None, ((rb, re_), (cb, ce)), ((rb, re_), (cb, ce), False), ((0, n), (cb, ce)), ((rb, re_), (0, n))])
+            check_block(ctx, np, dtw, dtw_ndim, dtw_cc, cont, nd, ss, kw, block, table)
+
 
 def make_container(np, cont, ss, engine):
     if cont == "list_np":
